@@ -24,6 +24,7 @@ RULE = ('DATE over the box year in {1900,1999,2000,2001,2023,2024,2100} x month 
         'partition the spaces, distinct cases counted by construction')
 ASSUMPTIONS = ['datetime/calendar of CPython are the Gregorian calendar', 'years 1900..9999 only',
                'DATEDIF units MD/YD and start>end kinds of error are not asserted']
+HOST_SETTINGS = {'shards': lambda shards: [0, len(shards) - 1], 'env': {'VERIF_HOST_DECIMAL': '2', 'TZ': 'XYZ-13'}}
 FLOORS = {'quick': {'evaluations': 150000, 'nontrivial': 40000, 'counters': {'today_checks': 8}},
           'thorough': {'evaluations': 2500000, 'nontrivial': 600000, 'counters': {'today_checks': 8}}}
 
